@@ -186,6 +186,8 @@ func runC07(c *eng.Ctx) {
 	// ---- R3 concatenation order
 	r3 := c.Rule("C07.R3", "B:order", "contexts: head first, then an ascending range over the merged tasks appending each task's contexts; monitor ids likewise", 2)
 	bcAcc := func(e ast.Expr) bool { return isCallNamed(info, e, "GetBindingContext") }
+	// variables connected by plain copies name the same slice (an inlined helper hands its result over that way)
+	sameObj := copyAliases(info, a.Decl.Body)
 	var combined types.Object
 	var headAppend *eng.GNode
 	var loop *eng.ElemLoop
@@ -213,7 +215,7 @@ func runC07(c *eng.Ctx) {
 		inLoop := false
 		eng.InspectNoLit(loop.Body, func(n ast.Node) bool {
 			if as, ok := n.(*ast.AssignStmt); ok && len(as.Rhs) == 1 {
-				if ap := builtinCall(info, as.Rhs[0], "append"); ap != nil && len(ap.Args) == 2 && eng.SelObj(info, ap.Args[0]) == combined && bcAcc(ap.Args[1]) && usesElem(loop, ap.Args[1]) {
+				if ap := builtinCall(info, as.Rhs[0], "append"); ap != nil && len(ap.Args) == 2 && eng.SelObj(info, ap.Args[0]) == combined && bcAcc(ap.Args[1]) && usesElemVia(info, loop, ap.Args[1]) {
 					inLoop = true
 				}
 			}
@@ -243,11 +245,14 @@ func runC07(c *eng.Ctx) {
 		})
 		stored := false
 		eng.InspectNoLit(a.Decl.Body, func(n ast.Node) bool {
-			if as, ok := n.(*ast.AssignStmt); ok && len(as.Lhs) == 1 && eng.IsField(info, as.Lhs[0], res) && eng.SelObj(info, as.Rhs[0]) == mon {
+			if as, ok := n.(*ast.AssignStmt); ok && len(as.Lhs) == 1 && eng.IsField(info, as.Lhs[0], res) && sameObj(eng.SelObj(info, as.Rhs[0]), mon) {
 				stored = true
 			}
 			return true
 		})
+		if mon != nil && mon == types.Object(res) {
+			stored = true // accumulated in the result itself
+		}
 		okMon = mon != nil && appended && stored
 	}
 	r3.Check(okMon, a.Key+" monitor-ids", a.Decl.Pos(), "monitor ids of the head plus those of every merged task are returned", "the monitor ids of merged tasks are not collected: merged Synchronizations never unlock their monitors")
@@ -351,7 +356,7 @@ func runC07(c *eng.Ctx) {
 	r5 := c.Rule("C07.R5", "E-lite:flags", "compaction: a context is left out only when its group is non-empty and equals the next context's group; kept contexts are appended in order", 2)
 	var cEl *eng.ElemLoop
 	if combined != nil {
-		for _, l := range elemLoopsOver(info, a.Decl.Body, func(x ast.Expr) bool { return eng.SelObj(info, x) == combined }) {
+		for _, l := range elemLoopsOver(info, a.Decl.Body, func(x ast.Expr) bool { return sameObj(eng.SelObj(info, x), combined) }) {
 			cEl = l
 		}
 	}
